@@ -22,7 +22,8 @@ class AllModel:
         self.unbacked = set()
 
     def unfold(self, s):
-        return [(x.type, str(x)) for x in self.tools.unfold_search(s)]
+        # (unfolded forms are typed, query-free searches - C07 judges that; a survivor that is not one denotes nothing)
+        return [(x.type, str(x)) for x in self.tools.unfold_search(s) if x and "?" not in str(x)]
 
     def finder_for(self, tname, sstr):
         from spil import Sid
@@ -58,7 +59,9 @@ class AllModel:
                         out.add(cand)
             return out
         if isinstance(F, self.FIP):
-            ex = self.exists.get(F.config_name, set())
+            # the configurations used here create their path Finder without a name: it serves the DEFAULT path configuration
+            # (not read from the live object: a Finder looking at another tree must not go unnoticed)
+            ex = self.exists.get(self.conf.default_path_config or F.config_name, set())
             return {e for e in ex if gmatch(sstr, e) and self.model.natural(e).name == tname}
         return None
 
